@@ -27,7 +27,10 @@ std::string join_quoted(const std::vector<std::string>& strs, char sep,
         if (i != 0)
             out += sep;
 
-        if (strs[i].find(sep) != std::string::npos)
+        // an empty field or one that begins with the quote character must be
+        // quoted as well, otherwise split_quoted() drops or misparses it
+        if (strs[i].empty() || strs[i].front() == quote ||
+            strs[i].find(sep) != std::string::npos)
         {
             out += quote;
             for (std::string::const_iterator it = strs[i].begin();
